@@ -324,11 +324,12 @@ def compile (t : Tid) : Prog → List (Tid × Op)
   | .withLocal r body rest => (t, .enter r) :: (compile t body ++ (t, .exit body.panics) :: compile t rest)
   | .panic => []
 
-/-! ## the compiled macro-form table of the harness (harness/src/c01.rs `FORMS`, same order) -/
+/-! ## the compiled macro-form table of the harness (harness/src/c01.rs `forms()`, same order) -/
 
 def modPath : String := "mv_harness::c01"
 
-def forms : List Call := [
+/-- the first 29 entries: hand-picked call sites (harness `OLD_FORMS`) -/
+def oldForms : List Call := [
   /- 0 -/ .reg { kind := .counter, target := none, level := none, name := .lit "c_lit", labels := .none },
   /- 1 -/ .reg { kind := .counter, target := none, level := none, name := .expr "c_computed_7", labels := .none },
   /- 2 -/ .reg { kind := .counter, target := none, level := none, name := .lit "c_lit", labels := .litPairs [("uvw", "xyz")] },
@@ -359,5 +360,68 @@ def forms : List Call := [
   /- 27 -/ .reg { kind := .counter, target := none, level := none, name := .lit "c_lit", labels := .litPairs [("uvw", "xyz")] },   -- trailing comma
   /- 28 -/ .desc { kind := .counter, name := .lit "c_lit", unit := some "count_per_second", desc := "a counter" }                 -- trailing comma
 ]
+
+/-! ### the systematic part: every macro × prefix arm × name kind × label shape; every describe × name kind × unit -/
+
+def kinds : List Kind := [.counter, .gauge, .histogram]
+
+def litName : Kind → String
+  | .counter => "c_lit" | .gauge => "g_lit" | .histogram => "h_lit"
+
+def compName : Kind → String
+  | .counter => "c_computed_7" | .gauge => "g_computed_7" | .histogram => "h_computed_7"
+
+/-- the level the harness spells in the `level:`-only arm of each macro -/
+def lvlOnly : Kind → Level
+  | .counter => .debug | .gauge => .trace | .histogram => .error
+
+/-- the level the harness spells in the `target:, level:` arm of each macro -/
+def lvlBoth : Kind → Level
+  | .counter => .warn | .gauge => .error | .histogram => .trace
+
+/-- the four prefix arms of `counter!/gauge!/histogram!`, in the harness's order -/
+def prefixes (k : Kind) : List (Option String × Option Level) :=
+  [(none, none), (some "tgt_x", none), (none, some (lvlOnly k)), (some "tgt_y", some (lvlBoth k))]
+
+/-- the four label shapes (one per group of `key_var!` arms) -/
+def labelShapes : List LabelsArg :=
+  [.none, .litPairs [("uvw", "xyz"), ("a", "b")], .exprPairs [("dyn", "xyz!"), ("ck", "cv")],
+   .collection [("uvw", "xyz!"), ("k2", "v2")]]
+
+/-- literal and computed name under each label shape -/
+def nameLabel (k : Kind) : List (NameArg × LabelsArg) :=
+  labelShapes.flatMap fun l => [(.lit (litName k), l), (.expr (compName k), l)]
+
+/-- 3 macros × 4 prefix arms × 8 name/label shapes = 96 call sites (harness `reg32!`/`reg8!`) -/
+def genReg : List Call :=
+  kinds.flatMap fun k => (prefixes k).flatMap fun p => (nameLabel k).map fun nl =>
+    .reg { kind := k, target := p.1, level := p.2, name := nl.1, labels := nl.2 }
+
+/-- `Unit::as_str` of the 17 variants, in declaration order -/
+def unitNames : List String :=
+  ["count", "percent", "seconds", "milliseconds", "microseconds", "nanoseconds", "tebibytes", "gibibytes", "mebibytes",
+   "kibibytes", "bytes", "terabits_per_second", "gigabits_per_second", "megabits_per_second", "kilobits_per_second",
+   "bits_per_second", "count_per_second"]
+
+/-- the two name kinds of a describe call with one unit argument (harness `desc36!`) -/
+def descPair (k : Kind) (u : Option String) : List Call :=
+  [.desc { kind := k, name := .lit (litName k), unit := u, desc := "d lit" },
+   .desc { kind := k, name := .expr (compName k), unit := u, desc := "computed desc 7" }]
+
+/-- 3 describe macros × (no unit + 17 units) × 2 name kinds = 108 call sites -/
+def genDesc : List Call :=
+  kinds.flatMap fun k => descPair k none ++ unitNames.flatMap fun u => descPair k (some u)
+
+/-- direct calls of the public `metrics::with_recorder(|r| r.<method>(…))` (what the macros expand to) -/
+def directForms : List Call := [
+  .reg { kind := .counter, target := some "tgt_d", level := some .error, name := .expr "direct_c", labels := .collection [("dk", "dv")] },
+  .reg { kind := .gauge, target := some "tgt_d", level := some .trace, name := .expr "direct_g7", labels := .collection [("dk", "dv"), ("k2", "v2")] },
+  .reg { kind := .histogram, target := some modPath, level := some .warn, name := .expr "direct_h", labels := .none },
+  .desc { kind := .counter, name := .expr "direct_c", unit := none, desc := "direct desc" },
+  .desc { kind := .gauge, name := .expr "direct_g", unit := some "bytes", desc := "direct desc" },
+  .desc { kind := .histogram, name := .expr "direct_h7", unit := some "seconds", desc := "direct desc" }
+]
+
+def forms : List Call := oldForms ++ genReg ++ genDesc ++ directForms
 
 end MetricsVerif.LocalRec
